@@ -273,11 +273,11 @@ MC_QUICK = [("MC_Rand.tla", "MC_Rand_dir4.cfg"), ("MC_Rand.tla", "MC_Rand_und5.c
             ("MC_RingLattice.tla", "MC_RingLattice_n3.cfg"), ("MC_RingLattice.tla", "MC_RingLattice_n4.cfg"),
             ("MC_RingLattice.tla", "MC_RingLattice_n5.cfg"),
             ("MC_DegreesFixed.tla", "MC_DegreesFixed_n3.cfg"), ("MC_DegreesFixed.tla", "MC_DegreesFixed_n4k5.cfg")]
-MC_THOROUGH = MC_QUICK + [("MC_Rand.tla", "MC_Rand_und6.cfg"), ("MC_Rand.tla", "MC_Rand_dir5.cfg"),
+MC_THOROUGH = MC_QUICK + [("MC_Rand.tla", "MC_Rand_und6.cfg"), ("MC_Rand.tla", "MC_Rand_dir5k8.cfg"),
                           ("MC_RingLattice.tla", "MC_RingLattice_n2.cfg"),
                           ("MC_RingLattice.tla", "MC_RingLattice_n6.cfg"),
                           ("MC_RingLattice.tla", "MC_RingLattice_n7.cfg"),
-                          ("MC_DegreesFixed.tla", "MC_DegreesFixed_n4k7.cfg")]
+                          ("MC_DegreesFixed.tla", "MC_DegreesFixed_n4k6.cfg")]
 
 
 def what(job, rec, clause):
@@ -333,7 +333,8 @@ def run(ctx):
         "makerandCIJdegreesfixed: BCTParamError is accepted only when the intended loop, fed the same draws, "
         "has no switch candidate left (the documented flag = 0 outcome)",
         "maketoeplitzCIJ's documented BCTParamError (10000 unsuccessful draws) is outside the property",
-        "exhaustive models: N <= 5 (ring 7 thorough), degree pairs N = 3 and N = 4 with k <= 5 (7 thorough)",
+        "exhaustive models: rand dir N=4 / und N=5 (thorough: und N=6, dir N=5 with K<=8), ring N<=5 (thorough N<=7), "
+        "degree pairs: all of N=3, N=4 with k<=5 (thorough k<=6); beyond that TLC -simulate behaviours only",
     ]
     return ctx.finish()
 
